@@ -21,22 +21,38 @@ def scenarios(tier, pid):
        "--watch", "10,12", "--preempt", 3 if T else 2)
     sc("forever_vs_two_deliveries", ("C09", "C10"), "--consumer", "f2", "--others", "D10,D10",
        "--preempt", 3 if T else 2)
+    sc("forever_two_signals_two_threads", ("C09", "C10"), "--consumer", "f3", "--others", "D12;D10",
+       "--watch", "10,12", "--preempt", 3 if T else 2)
+    sc("poll_blocking_two_signals", ("C09", "C11"), "--consumer", "b3", "--others", "D12;D10",
+       "--watch", "10,12", "--preempt", 3 if T else 2)
+    sc("poll_nonblocking_two_signals", ("C09", "C11") if not T else ("C09", "C10", "C11"), "--consumer", "n4", "--others", "D12;D10",
+       "--watch", "10,12", "--preempt", 3 if T else 2)
+    sc("forever_nested_two_signals", ("C09", "C10"), "--consumer", "f3", "--watch", "10,12",
+       "--nested", 2, "--handler-atomic", "--preempt", 0)
     sc("wait_nested_delivery_on_consumer", ("C09", "C10", "C03"), "--consumer", "w,w",
        "--nested", 2 if T else 1, "--preempt", 1)
     sc("pending_nested_delivery_on_consumer", ("C09", "C10", "C03"), "--consumer", "p,p,p",
-       "--nested", 2, "--handler-atomic")
+       "--nested", 2 if T else 1, "--handler-atomic", "--post-points")
+    sc("wait_woken_then_nested_other_signal", ("C09", "C10"), "--consumer", "w,w", "--others", "D10",
+       "--watch", "10,12", "--nested", 1, "--deliver", "12", "--preempt", 1, "--handler-atomic")
     sc("poll_nonblocking_vs_delivery", ("C09", "C10", "C11"), "--consumer", "n3", "--others", "D10",
        "--preempt", 3)
     sc("poll_blocking_vs_delivery", ("C09", "C10", "C11"), "--consumer", "b2", "--others", "D10,D10",
        "--preempt", 2)
     sc("add_signal_then_delivery", ("C09", "C10", "C12"), "--consumer", "w,w", "--others",
        "a12,D12;D10", "--watch", "10", "--preempt", 2 if T else 1)
+    sc("concurrent_add_same_signal", ("C12",), "--consumer", "p", "--others", "a12;a12,h",
+       "--watch", "10", "--preempt", 3 if T else 2)
+    sc("add_while_other_adds_and_delivery", ("C12",), "--consumer", "p,p", "--others",
+       "a12,a14;a14,a12;D10", "--watch", "10", "--preempt", 1)
     sc("burst_same_signal", ("C10",), "--consumer", "p,p,p", "--others", "D10,D10,D10;D10",
-       "--preempt", 2)
-    sc("raw_records_two_producers", ("C10", "C09"), "--raw", "--consumer", "p,p,p", "--others",
-       "D10,D10;D10", "--preempt", 2)
+       "--preempt", 2 if T else 1)
+    sc("raw_records_two_producers", ("C10", "C09") if T else ("C10",), "--raw", "--consumer", "p,p,p",
+       "--others", "D10,D10;D10", "--preempt", 2 if T else 1)
     sc("raw_wait_vs_delivery", ("C10", "C09"), "--raw", "--consumer", "w,w", "--others", "D10,D10",
        "--preempt", 2)
+    sc("raw_full_buffer_nested_delivery_in_scan", ("C10",), "--raw", "--consumer", "p,p", "--others",
+       "D10,D10,D10,D10,D10", "--nested", 1, "--handler-atomic", "--preempt", 0, "--post-points")
     sc("raw_burst_overflow", ("C10",), "--raw", "--consumer", "p,p", "--others",
        "D10,D10,D10,D10,D10,D10,D10", "--preempt", 1)
     sc("close_vs_blocking_poll", ("C11",), "--consumer", "b2", "--others", "c", "--preempt", 4)
